@@ -8,13 +8,14 @@ import random
 def nat_key(s):
     """natural-sort key equal to the order of internal/natsort.Less on ASCII names"""
     out, i = [], 0
+    dig = lambda c: "0" <= c <= "9"        # (str.isdigit is also true for superscripts and other Unicode digits)
     while i < len(s):
-        if s[i].isdigit():
+        if dig(s[i]):
             j = i
             while j < len(s) and s[j] == "0":
                 j += 1
             k = j
-            while k < len(s) and s[k].isdigit():
+            while k < len(s) and dig(s[k]):
                 k += 1
             out.append((1, k - j, s[j:k], j - i))
             i = k
